@@ -2,7 +2,8 @@
    kernel semantics: a non-contiguous match in the main graph, the same match inside an If branch, and a rule
    that keeps the matched nodes (remove_nodes=False). *)
 From Coq Require Import List String ZArith Bool Arith Lia.
-Require Import OV.Graph.Syntax OV.Graph.Sem OV.Graph.Names OV.Graph.SemProofs OV.Rewrite.Apply OV.Rewrite.ApplyProofs.
+Require Import OV.Graph.Syntax OV.Graph.Sem OV.Graph.Names OV.Graph.SemProofs.
+Require Import OV.Rewrite.Apply OV.Rewrite.ApplyProofs OV.Rewrite.KeepProofs OV.Rewrite.PassProofs.
 Import ListNotations.
 Local Open Scope string_scope.
 Local Open Scope list_scope.
@@ -30,6 +31,18 @@ Definition ex_X_keep := ["a_dead"; "t2"].
 Example ex_apply_keep : apply_nodes ex_app_keep ex_nodes = Some ex_after_keep.
 Proof. reflexivity. Qed.
 
+(* keeping rule where an unmatched node INSIDE the window consumes the intermediate of the kept match: the kept
+   nodes cannot be commuted to the end of the window; covered by the keeping theorem (re-execution argument) *)
+Definition ex_nodes_k2 := [nAbs "x" "t"; nRelu "t" "w"; nNeg "t" "a"; nAdd "a" "w" "o"].
+Definition ex_after_k2 :=
+  [nAbs "x" "t"; nRelu "t" "w"; nNeg "t" "a_dead"; nAbs "x" "t2"; nNeg "t2" "a"; nAdd "a" "w" "o"].
+
+Example ex_apply_k2 : apply_nodes ex_app_keep ex_nodes_k2 = Some ex_after_k2.
+Proof. reflexivity. Qed.
+
+Example ex_k2_not_movable : movableb (a_mask ex_app_keep) (firstn 3 ex_nodes_k2) = false.
+Proof. reflexivity. Qed.
+
 (* the same host inside the then-branch of an If *)
 Definition ex_branch := Graph [] [] ex_nodes ["o"].
 Definition ex_else := Graph [] [] [nRelu "y" "o2"] ["o2"].
@@ -40,6 +53,22 @@ Definition ex_path : path := [(0, "then_branch")].
 Example ex_apply_nested : apply_at ex_path ex_app ex_host =
   Some (Graph ["x"; "y"; "c"] []
     [Node "" "If" [Some "c"] ["r"] [] [("then_branch", Graph [] [] ex_after ["o"]); ("else_branch", ex_else)]] ["r"]).
+Proof. reflexivity. Qed.
+
+Definition ex_host_after := Graph ["x"; "y"; "c"] []
+    [Node "" "If" [Some "c"] ["r"] [] [("then_branch", Graph [] [] ex_after ["o"]); ("else_branch", ex_else)]] ["r"].
+
+Definition ex_host_k2 := Graph ["x"] [] ex_nodes_k2 ["o"].
+Definition ex_host_k2_after := Graph ["x"] [] ex_after_k2 ["o"].
+
+Example ex_check_k2 : check_host [([], ex_app_keep, ["a"])] ex_host_k2 ex_host_k2_after = (0, 1, 0).
+Proof. vm_compute. reflexivity. Qed.
+
+(* the replay checker accepts the logged application (what the harness evaluates on the real data) *)
+Example ex_check : check_host [(ex_path, ex_app, ["a"])] ex_host ex_host_after = (0, 1, 0).
+Proof. vm_compute. reflexivity. Qed.
+
+Example ex_check_X : app_X ex_app ex_nodes ["a"] = ["t"; "t2"].
 Proof. reflexivity. Qed.
 
 Section Ex.
@@ -96,9 +125,24 @@ Section Ex.
     apply side_okb_sound; [reflexivity|]. intro f. apply ex_seg_keep.
   Qed.
 
+  Example ex_keep_hyps :
+    keep_sound_at V sem truth trip of_nat of_bool limit ex_nodes ["o"] ex_app_keep ex_X.
+  Proof. split; [reflexivity|]. intro f. apply ex_seg. Qed.
+
+  Example ex_keep_hyps_k2 :
+    keep_sound_at V sem truth trip of_nat of_bool limit ex_nodes_k2 ["o"] ex_app_keep ex_X.
+  Proof. split; [reflexivity|]. intro f. apply ex_seg. Qed.
+
   Example ex_ok_nested : ok_at V sem truth trip of_nat of_bool limit ex_path ex_app ex_X ex_host.
-  Proof. cbn. apply ex_sound_hyps. Qed.
+  Proof. cbn. left. apply ex_sound_hyps. Qed.
 
   Example ex_pass_ok : pass_ok V sem truth trip of_nat of_bool limit [(ex_path, ex_app, ex_X)] ex_host.
-  Proof. cbn. split; [apply ex_sound_hyps|exact I]. Qed.
+  Proof. cbn. split; [left; apply ex_sound_hyps|exact I]. Qed.
+
+  Example ex_equiv_hyps : equiv_hyps V sem truth trip of_nat of_bool limit [(ex_path, ex_app, ["a"])] ex_host.
+  Proof. cbn. split; [intro f; apply ex_seg|exact I]. Qed.
+
+  Example ex_equiv_hyps_k2 :
+    equiv_hyps V sem truth trip of_nat of_bool limit [([], ex_app_keep, ["a"])] ex_host_k2.
+  Proof. cbn. split; [intro f; apply ex_seg|exact I]. Qed.
 End Ex.
